@@ -17,7 +17,8 @@ TL_DERIVE = ["tl_copy", "tl_copy_func", "tl_crop_loose", "tl_crop_strict", "tl_c
              "tl_support", "tl_gaps", "tl_segmentation", "tl_union", "tl_or", "tl_get_overlap", "tl_empty"]
 TL_TO_ANN = ["to_annotation"]
 PURE_OPS = ["co_iter", "mul", "to_rttm", "to_lab", "eq", "ne", "chart", "argmax", "itertracks", "labels", "contains",
-            "discretize", "tl_co_iter", "tl_covers", "tl_eq", "tl_to_uem", "tl_overlapping", "tl_str"]
+            "discretize", "tl_co_iter", "tl_covers", "tl_eq", "tl_to_uem", "tl_overlapping", "tl_str",
+            "absent_label", "absent_segment", "internal_views", "ann_all_reads", "tl_all_reads"]
 RULE = ("for every deriving operation of Annotation and Timeline (copy, crop x3, extrude x3, support, subset, "
         "rename_labels copy/generated, rename_tracks, relabel_tracks, update(copy=True), get_timeline, label_timeline, "
         "label_support, get_overlap, to_annotation, Timeline copy/crop/extrude/support/gaps/segmentation/union) in each "
@@ -247,6 +248,48 @@ def run(case):
         elif op == "tl_to_uem": t.to_uem()
         elif op == "tl_overlapping": t.overlapping(tb.t(3))
         elif op == "tl_str": str(t); repr(t); len(t); t.duration()
+        elif op == "absent_label":
+            # every query that takes a label, asked about a label the annotation does not carry
+            for lab in ("zz_absent", 12345, ""):
+                if lab in a.labels():
+                    continue
+                a.label_duration(lab); a.label_support(lab); a.label_timeline(lab); a.label_timeline(lab, copy=False)
+                a.subset([lab]); a.subset({lab}, invert=True); a.get_overlap(labels=[lab]); (lab in a.labels())
+                a.rename_labels(mapping={lab: "zz_other"}); list(a.itertracks(yield_label=True))
+        elif op == "absent_segment":
+            for S in (Segment(tb.t(100), tb.t(101)), Segment(tb.t(0), tb.t(0)), Segment(tb.t(-7), tb.t(50))):
+                if S in a:
+                    continue
+                a.get_tracks(S); a.get_labels(S); a.get_labels(S, unique=False); a.has_track(S, "_"); (S in a)
+                a.new_track(S); a.new_track(S, candidate="_", prefix="p"); a.crop(S); a.argmax(S)
+                try:
+                    a[S]
+                except KeyError:
+                    pass
+                try:
+                    a[S, "_"]
+                except KeyError:
+                    pass
+        elif op == "internal_views":
+            # views handed out without copying are only read here
+            v = a.get_timeline(copy=False); list(v); len(v); v.extent(); v.duration()
+            for lab in a.labels():
+                w = a.label_timeline(lab, copy=False); list(w); w.support(); w.duration()
+            list(a.itersegments()); len(a); bool(a); str(a); repr(a)
+        elif op == "ann_all_reads":
+            S = Segment(tb.t(2), tb.t(9))
+            a.chart(percent=True); a.argmax(); a.get_overlap(); a.support(tb.t(1)); a.crop(S, mode="loose"); a.extrude(S)
+            list(a.co_iter(a)); a * a; a.subset(a.labels()[:1]); a.label_duration(a.labels()[0]) if a.labels() else None
+            a.relabel_tracks(); a.rename_tracks(generator="int"); a.rename_labels(generator="string"); a.empty(); a.copy()
+            list(a.itertracks()); [a.get_tracks(s) for s in a.itersegments()]; [a.get_labels(s) for s in a.itersegments()]
+            a.update(other, copy=True); (a == a.copy()); a.to_rttm(); a.to_lab()
+        elif op == "tl_all_reads":
+            S = Segment(tb.t(2), tb.t(9))
+            t.extent(); t.support(); t.support(tb.t(1)); t.duration(); t.gaps(); t.gaps(support=S); t.segmentation()
+            t.crop(S); t.crop(to, mode="strict", returns_mapping=True); t.extrude(S); t.get_overlap(); t.covers(to)
+            list(t.overlapping_iter(tb.t(3))); t.overlapping(tb.t(100)); (S in t); (to in t); (t.empty() in t); t.union(to)
+            t | to; t.copy(); t.to_annotation(); t.to_uem(); list(t.co_iter(to)); list(iter(t)); t[0] if t else None
+            t.index(t[0]) if t else None; bool(t); len(t); str(t)
         assert _raw_snap(tb, a) == raw
         after = [_snap(tb, a), _snap(tb, other), _snap(tb, t), _snap(tb, to)]
         return {"before": before, "after": after}
